@@ -27,6 +27,9 @@ Pow2(n) == 2 ^ n
 HasFlag(e, c) == \E i \in 1..Len(e.flags) : SubSeq(e.flags, i, i) = c
 Fld(r, f, d) == IF f \in DOMAIN r THEN r[f] ELSE d
 
+\* a scenario of the raw-peer driver (harness/tcprawd) sets raw_b: endpoint b is a SCRIPT that fabricates segments (it
+\* shrinks windows, acknowledges what it likes, ...).  The clauses constrain real stacks only; the bookkeeping is done for both.
+Real(e) == ~(e = "b" /\ Fld(cfg, "raw_b", FALSE))
 Mtu(e) == IF e = "b" THEN Fld(cfg, "mtu_b", cfg.mtu) ELSE cfg.mtu     \* link MTU of e's interface (asymmetric paths: mtu_b)
 C5Init == [e \in E |-> C5Init0]
 Zero == [e \in E |-> 0]
@@ -79,14 +82,23 @@ Eos == /\ IsEvent("eos")
        /\ UNCHANGED <<cfg, up, written, offer, shut, emitMax, delivered, rstop, contig, pcontig, parked, okEnd, finArr, maxEdge, advEdge, mss, ws, err, faults, c5>>
 ReadStop == /\ IsEvent("readstop") /\ rstop' = [rstop EXCEPT ![Ev.e] = TRUE]
             /\ UNCHANGED <<cfg, up, written, offer, shut, emitMax, delivered, eos, contig, pcontig, parked, okEnd, finArr, maxEdge, advEdge, mss, ws, err, faults, c5>>
-\* a connection may fail only with an explicit error; scenarios whose faults are finite and recoverable do not allow it
+\* The application Close()s its endpoint (after its writer and its reader are done).  Close implies shutting the write side
+\* down.  A close before the end of stream was read is abortive (the stack may reset the connection): recorded in err, which
+\* explains an error the peer sees afterwards.  A close after EOS is an orderly close: the peer is still owed data + EOS.
+AppClose == /\ IsEvent("close")
+            /\ shut' = [shut EXCEPT ![Ev.e] = IF @ < 0 THEN written[Ev.e] ELSE @]
+            /\ err' = [err EXCEPT ![Ev.e] = IF ~eos[Ev.e] /\ @ = "" THEN "closed-before-eos" ELSE @]
+            /\ UNCHANGED <<cfg, up, written, offer, emitMax, delivered, eos, rstop, contig, pcontig, parked, okEnd, finArr, maxEdge, advEdge, mss, ws, faults, c5>>
+\* a connection may fail only with an explicit error; scenarios whose faults are finite and recoverable do not allow it,
+\* unless the peer failed or closed abortively before
 RErr == /\ IsEvent("rerr")
-        /\ On("C02") => Fld(cfg, "allowerr", FALSE)
+        /\ On("C02") => (Fld(cfg, "allowerr", FALSE) \/ err[Peer(Ev.e)] # "")
         /\ err' = [err EXCEPT ![Ev.e] = Ev.err] /\ rstop' = [rstop EXCEPT ![Ev.e] = TRUE]
         /\ UNCHANGED <<cfg, up, written, offer, shut, emitMax, delivered, eos, contig, pcontig, parked, okEnd, finArr, maxEdge, advEdge, mss, ws, faults, c5>>
 
 \* ------------------------------------------------------------------ wire side
-Scale(e) == IF ws[e] >= 0 /\ ws[Peer(e)] >= 0 THEN ws[e] ELSE 0
+\* RFC 7323 2.3: a shift count above 14 in the option means 14 (only a scripted peer sends one)
+Scale(e) == IF ws[e] >= 0 /\ ws[Peer(e)] >= 0 THEN Min2(ws[e], 14) ELSE 0
 RECURSIVE Adv(_, _)
 Adv(c, S) == LET T == {iv \in S : iv[1] <= c /\ iv[2] > c} IN
              IF T = {} THEN c ELSE Adv(CHOOSE m \in {iv[2] : iv \in T} : \A iv \in T : iv[2] <= m, S)
@@ -95,43 +107,45 @@ Emit == /\ IsEvent("emit") /\ "bad" \notin DOMAIN Ev
         /\ LET e == Ev.e  p == Peer(Ev.e)  off == Ev.seq - 1  len == Ev.len
                syn == HasFlag(Ev, "S")  fin == HasFlag(Ev, "F")  rst == HasFlag(Ev, "R")  ack == HasFlag(Ev, "A")
                edge == Ev.ack - 1 + (IF syn THEN Ev.wnd ELSE Ev.wnd * Pow2(Scale(e)))
+               on(q) == On(q) /\ Real(e)            \* the clauses below bind real stacks, not a scripted peer
            IN
            /\ Ev.sumok /\ Ev.optok
            \* ---- C01: every data byte on the wire is the byte the application wrote at that offset
-           /\ (len > 0 /\ On("C01")) => /\ off >= 0 /\ off + len <= written[e] + offer[e]
+           /\ (len > 0 /\ on("C01")) => /\ off >= 0 /\ off + len <= written[e] + offer[e]
                                         /\ Len(Ev.pay) = len
                                         /\ \A k \in 1..len : Ev.pay[k] = Byte(Dir(e), off + k - 1)
            \* ---- C02: FIN only after the application shut down, at the end of the stream, after all data was sent at least once
-           /\ (fin /\ On("C02")) => /\ shut[e] >= 0 /\ off + len = shut[e]
+           /\ (fin /\ on("C02")) => /\ shut[e] >= 0 /\ off + len = shut[e]
                                     /\ Max2(emitMax[e], off + len) >= shut[e]
            \* ---- C04: never beyond the right edge the peer offered, never larger than the peer's MSS / the path MTU
-           /\ (len > 0 /\ On("C04")) => /\ off + len <= maxEdge[e]
+           /\ (len > 0 /\ on("C04")) => /\ off + len <= maxEdge[e]
                                         /\ (mss[p] >= 0 => len <= mss[p])
                                         /\ \/ Ev.iplen <= Mtu(e)
                                            \* known finding F14: on a path with no room for payload next to a full option area
                                            \* (MTU - IP header - 20 - 40 <= 0: IPv4 MTU <= 80, IPv6 MTU <= 100) the budget is clamped to 1 byte and the SACK option comes on top
                                            \/ (Fld(cfg, "kf_f14", FALSE) /\ Mtu(e) <= (IF cfg.v = 6 THEN 100 ELSE 80) /\ len = 1 /\ Len(Ev.sack) > 0 /\ Ev.iplen - (8 * Len(Ev.sack) + 4) <= Mtu(e))
            \* ---- C04: the advertised right edge never moves left (RST carries no window)
-           /\ (ack /\ ~rst /\ ~syn /\ On("C04") /\ advEdge[e] >= 0) =>
+           /\ (ack /\ ~rst /\ ~syn /\ on("C04") /\ advEdge[e] >= 0) =>
                   \/ edge >= advEdge[e]
                   \/ (Fld(cfg, "kf_f4", FALSE) /\ Scale(e) > 0 /\ advEdge[e] - edge < Pow2(Scale(e)))   \* known finding F4 (scaled-window rounding)
-           /\ (On("C04") /\ Fld(cfg, IF e = "a" THEN "rcvbuf_a" ELSE "rcvbuf_b", 0) > 0 /\ ack /\ ~rst /\ ~syn) =>
+           /\ (on("C04") /\ Fld(cfg, IF e = "a" THEN "rcvbuf_a" ELSE "rcvbuf_b", 0) > 0 /\ ack /\ ~rst /\ ~syn) =>
                   edge - delivered[e] <= 2 * Fld(cfg, IF e = "a" THEN "rcvbuf_a" ELSE "rcvbuf_b", 0) + Pow2(Scale(e)) + 1500
            \* ---- C01/C04: an acknowledgement never covers data that has not arrived; and on a synchronous wire (every arrival but
            \*      the last one has been processed) with default buffers and everything inside the advertised window, it covers all
            \*      in-order data the endpoint held before the last arrival: data the stack accepted is acknowledged, not sat on
-           /\ (ack /\ ~rst /\ ~syn /\ (On("C01") \/ On("C04"))) => Ev.ack - 1 <= contig[e] + (IF finArr[e] >= 0 THEN 1 ELSE 0)
-           /\ (ack /\ ~rst /\ ~syn /\ On("C04") /\ Fld(cfg, "sync", FALSE) /\ Fld(cfg, IF e = "a" THEN "rcvbuf_a" ELSE "rcvbuf_b", 0) = 0
+           /\ (ack /\ ~rst /\ ~syn /\ (on("C01") \/ on("C04"))) => Ev.ack - 1 <= contig[e] + (IF finArr[e] >= 0 THEN 1 ELSE 0)
+           /\ (ack /\ ~rst /\ ~syn /\ on("C04") /\ Fld(cfg, "sync", FALSE) /\ Fld(cfg, IF e = "a" THEN "rcvbuf_a" ELSE "rcvbuf_b", 0) = 0
                    /\ advEdge[e] >= 0 /\ contig[e] <= advEdge[e] /\ ~eos[e] /\ ~rstop[e])
                  => Ev.ack - 1 >= pcontig[e]
            \* ---- C05 (clauses in module TcpC05)
-           /\ (len > 0 /\ On("C05")) => C5EmitOK(c5[e], off, len, Ev.t, Fld(cfg, "kf_f7", FALSE), Fld(cfg, "cc", "") \in {"", "reno"})
+           /\ (len > 0 /\ on("C05")) => C5EmitOK(c5[e], off, len, Ev.t, Fld(cfg, "kf_f7", FALSE), Fld(cfg, "cc", "") \in {"", "reno"})
            \* ---- bookkeeping
            /\ emitMax' = [emitMax EXCEPT ![e] = IF len > 0 THEN Max2(@, off + len) ELSE @]
            /\ advEdge' = [advEdge EXCEPT ![e] = IF ack /\ ~rst THEN Max2(@, edge) ELSE @]
            /\ mss' = [mss EXCEPT ![e] = IF syn THEN Ev.mss ELSE @]
            /\ ws' = [ws EXCEPT ![e] = IF syn THEN Ev.ws ELSE @]
-           /\ c5' = [c5 EXCEPT ![e] = IF len > 0 THEN C5AfterEmit(@, off, len, Ev.t, emitMax[e]) ELSE @]
+           /\ c5' = [c5 EXCEPT ![e] = LET c1 == IF len > 0 THEN C5AfterEmit(c5[e], off, len, Ev.t, emitMax[e]) ELSE c5[e]
+                                       IN IF fin THEN [c1 EXCEPT !.finSent = TRUE] ELSE c1]
         /\ UNCHANGED <<cfg, up, written, offer, shut, delivered, eos, rstop, contig, pcontig, parked, okEnd, finArr, maxEdge, err, faults>>
 EmitOther == /\ IsEvent("emit") /\ "bad" \in DOMAIN Ev /\ Same
 
@@ -145,14 +159,18 @@ Arrive == /\ IsEvent("arrive") /\ "bad" \notin DOMAIN Ev
              \* C05 "without waiting for the retransmission timeout": on the synchronous wire a frame is handed over only
              \* after the previous one was processed, so the fast retransmit mandated by the third duplicate ACK has been
              \* emitted (synchronously, by the goroutine that processed that ACK) before anything else can arrive
-             /\ (On("C05") /\ Fld(cfg, "sync", FALSE)) => c5[e].needRetx < 0
+             /\ (On("C05") /\ Fld(cfg, "sync", FALSE) /\ Real(e)) => c5[e].needRetx < 0
              /\ contig' = [contig EXCEPT ![e] = nc]
              /\ pcontig' = [pcontig EXCEPT ![e] = contig[e]]      \* what had arrived in order before this (possibly still unprocessed) arrival
              /\ parked' = [parked EXCEPT ![e] = {iv \in np : iv[2] > nc}]
              /\ okEnd' = [okEnd EXCEPT ![e] = IF len > 0 /\ (advEdge[e] < 0 \/ off < advEdge[e]) THEN Max2(@, off + len) ELSE @]
              /\ finArr' = [finArr EXCEPT ![e] = IF fin /\ ~rst THEN off + len ELSE @]
-             /\ maxEdge' = [maxEdge EXCEPT ![e] = IF ack /\ ~rst /\ Ev.ack > -900000 THEN Max2(@, edge) ELSE @]
-             /\ c5' = [c5 EXCEPT ![e] = IF ack /\ ~rst /\ ~syn /\ Ev.ack > -900000 THEN C5AfterAck(@, Ev.ack, len + (IF fin THEN 1 ELSE 0), Ev.wnd, Ev.t) ELSE @]
+             \* the window field of a SYN that carries no ACK (the peer opens actively) is an offer too: it starts at the first
+             \* data byte.  (The passive side of this stack sends against it until the first ACK after the handshake arrives.)
+             /\ maxEdge' = [maxEdge EXCEPT ![e] = IF ack /\ ~rst /\ Ev.ack > -900000 THEN Max2(@, edge)
+                                                  ELSE IF syn /\ ~ack /\ ~rst THEN Max2(@, Ev.wnd) ELSE @]
+             /\ c5' = [c5 EXCEPT ![e] = IF ack /\ ~rst /\ ~syn /\ Ev.ack > -900000 THEN C5AfterAck(@, Ev.ack, len + (IF fin THEN 1 ELSE 0), Ev.wnd, Ev.t,
+                                                                                                                      emitMax[e] + (IF c5[e].finSent THEN 1 ELSE 0)) ELSE @]
           /\ UNCHANGED <<cfg, up, written, offer, shut, emitMax, delivered, eos, rstop, advEdge, mss, ws, err, faults>>
 ArriveOther == /\ IsEvent("arrive") /\ "bad" \in DOMAIN Ev /\ Same
 Drop == /\ IsEvent("drop") /\ faults' = faults + 1
@@ -179,7 +197,7 @@ End == /\ IsEvent("end")
                      (Ev.a.state = 5 /\ Ev.b.state = 5 /\ Ev.a.err = "" /\ Ev.b.err = "")
        /\ Same
 Panic == IsEvent("panic") /\ FALSE
-TNext == Reset \/ Skip \/ Up \/ WCall \/ WRet \/ ShutW \/ Read \/ Eos \/ ReadStop \/ RErr \/ Emit \/ EmitOther \/ Arrive \/ ArriveOther
+TNext == Reset \/ Skip \/ Up \/ WCall \/ WRet \/ ShutW \/ AppClose \/ Read \/ Eos \/ ReadStop \/ RErr \/ Emit \/ EmitOther \/ Arrive \/ ArriveOther
          \/ Drop \/ Quiesce \/ End
 TSpec == TInit /\ [][TNext]_tvars
 ====
